@@ -11,12 +11,16 @@
   group, the two different centring conventions of `DecomposeAndSplit`, the shift/mask digits), the centred lift
   `ModUpPtoQ`, and `ModDownQPtoQ`.
 
-  Values are canonical (coefficient domain, reduced): the lazy-reduction schedule
-  (`QiOverflowMargin`), NTT and Montgomery forms are invisible at this level (C01/C02).
-  [IEEE hypothesis of `reconstructRNS{,Centered}`: the float index `v = ⌊Σ y_i/q_i⌋` is computed
-  exactly; the model uses the exact value.  Monitored by the bit-exact tie.]
+  Values are canonical (coefficient domain, reduced): NTT and Montgomery forms are invisible at this level
+  (C01/C02).  The lazy `uint64` accumulation with its reduction schedule (`QiOverflowMargin >> 1`) is modelled
+  separately at WORD level (`gpLazyLimb`, tie `gplazyw`, no-wrap theorems in `Proofs/KeySwitchLazy`).
+  The float index `v = uint64(Σ float64(y_i)/float64(q_i))` of `reconstructRNS{,Centered}` is computed with Lean
+  `Float` (IEEE double, same operations in the same order: `floatIndex`), so the model is bit-exact also where the
+  float sum lands on the wrong side of an integer (centred boundaries); the phase theorems hold for EVERY value of
+  that index (`C04Stack`), only the size of the remainder needs it to be the exact floor (`FloatExactPoly`).
 -/
 import Lattigo.Model.Gadget
+import Lattigo.Model.RGSW
 
 namespace Lattigo.KS
 
@@ -239,6 +243,22 @@ def scaleByP (qsP : List Nat) (c0 : RPoly) : RPoly :=
   let n := (c0.c.headD []).length
   let s := c0.scale (prod qsP)
   { qs := s.qs ++ qsP, c := s.c ++ qsP.map fun _ => List.replicate n 0 }
+
+/-! ## Word level: the lazy `uint64` accumulators of `GadgetProduct{,Hoisted}Lazy`
+
+  `gadgetProductMultiplePLazy`, `gadgetProductSinglePAndBitDecompLazy` and `gadgetProductMultiplePLazyHoisted`
+  accumulate, per RNS limb and NTT slot, the terms `MRedLazy(key[i][j], digit[i][j])` WITHOUT reduction
+  (`MulCoeffsMontgomeryLazy` for the first term, `MulCoeffsMontgomeryLazyThenAddLazy` after), and reduce when
+  `reduce % F == F − 1` with `F = QiOverflowMargin(levelQ) >> 1` (Q limbs) resp. `PiOverflowMargin(levelP) >> 1`
+  (P limbs), `reduce` advanced once per `(i, j)`; a final `Reduce` if `reduce % F != 0`.  This is the schedule
+  `RGSW.accSched` of the external product (same code shape); the rows below are the raw stored words
+  (NTT domain, key in Montgomery form). -/
+
+/-- one limb of one component: `R[k]`, `C[k]` the raw key row / raw digit row of term `k` in the order of the
+    code (`i` outer, `j` inner); `fam` the primes of the limb's family at the current level -/
+def gpLazyLimb (p mrc : Nat) (fam : List Nat) (R C : List (List Nat)) : List Nat :=
+  (List.zip (RPoly.transpose R) (RPoly.transpose C)).map fun (rs, cs) =>
+    RGSW.lazySlot p mrc (RGSW.lazyMargin fam) rs cs
 
 /-- `Y ↦ X^{gap}` on one row: coefficient `k` goes to position `k·gap`, zeros elsewhere -/
 def rowEmbed (gap : Nat) (x : List Nat) : List Nat :=
